@@ -52,10 +52,17 @@ func c02Scenarios() []scOpt {
 	s3e := corpusS3(n3, "1", "auto", b, &w.Alpha{SpecEdits: []string{"drop-canary", "canary-replicas=2", "canary-replicas=1"}})
 	s3e.name = "S3-canary-spec-edits"
 	scs = append(scs, s3e)
+	// S8: templates with a nodeSelector AND a node affinity that has only a preferred term; one node outside the selector,
+	// another one may join or be relabelled
+	const selA, selB = "A+nodesel:k=a+preferred", "B+nodesel:k=a+preferred"
+	s8 := scOpt{name: "S8-nodeselector-and-preferred-affinity", nodes: []string{"n1:k=a", "n2:k=a", "n3"}, tpl0: selA, tpls: []string{selA, selB},
+		eds: []w.EDSOpt{w.WithRolling("1", "", 0, 0)}, first: []w.Event{evb("setTemplate", edsKey, selB)},
+		alpha: &w.Alpha{AddNodes: []string{"n9", "n8:k=a"}, PodDev: []string{"unready"}}, budget: b}
+	scs = append(scs, s8)
 	if h.Thorough() {
 		scs[1] = corpusS2(n3, "1", 2, rolloutDev())
 		scs[4] = corpusS3(n3, "1", "auto", 2, canaryDev())
-		scs[len(scs)-1].budget = 2
+		scs[len(scs)-2].budget = 2
 		scs = append(scs, corpusS3([]string{"n1", "n2", "n3", "n4"}, "2", "auto", 1, canaryDev()))
 	}
 	return scs
